@@ -19,8 +19,10 @@ Explains(r) ==
               [] OTHER -> ~r.out.ok \/ (r.out.fields = d.fields)
       [] OTHER -> FALSE
 
+\* why the reference decoder refuses the input of a rejected qdec record (classification of findings only)
+Why(r) == IF r.fn = "qdec" /\ DecodeSection(r.in).v = "reject" THEN DecodeSection(r.in).why ELSE ""
 Init == l = 1
-Next == l <= Len(Rec) /\ l' = l + 1 /\ (IF Explains(Rec[l]) THEN TRUE ELSE PrintT(<<"REJECT", l>>))
+Next == l <= Len(Rec) /\ l' = l + 1 /\ (IF Explains(Rec[l]) THEN TRUE ELSE PrintT(<<"REJECT", l, Why(Rec[l])>>))
 Spec == Init /\ [][Next]_l
 TraceAccepted == TLCGet("stats").diameter - 1 = Len(Rec)
 =============================================================================
